@@ -542,6 +542,10 @@ type Parser struct {
 	// A non-zero number means that we require certain tokens or words before
 	// reaching EOF, used for [Parser.Incomplete].
 	openNodes int
+	// escapedBslash is whether the last rune was a backslash escaped by
+	// the backslash before it, which means that it escapes nothing itself.
+	escapedBslash bool
+
 	// openBquotes is how many levels of backquotes are open at the moment.
 	openBquotes int
 	// openBquoteDbls is how many of those backquote levels began inside
@@ -592,6 +596,7 @@ func (p *Parser) reset() {
 	p.hdocStops = nil
 	p.parsingDoc = false
 	p.openBquotes = 0
+	p.escapedBslash = false
 	p.openBquoteDbls = 0
 	p.accComs = nil
 	p.accComs, p.curComs = nil, &p.accComs
